@@ -26,12 +26,15 @@ def plan(tier, seed):
   for n in (2, 3, 4, 5):
     for cls in ("RoundRobinArbiter", "RoundRobinArbiterEn"):
       p.append({"kind": "rand", "cls": cls, "nreqs": n, "cycles": 600 if q else 8000, "hashseed": (seed * 5 + n) % 97, "embedded": True})
+  for N in (5, 6, 8, 11):
+    for cls in ("RoundRobinArbiter", "RoundRobinArbiterEn"):
+      p.append({"kind": "gated", "cls": cls, "nreqs": 3 + N % 3, "gated": N, "cycles": 150 if q else 1500, "hashseed": (seed * 7 + N) % 97})
   return p
 
 
 def thresholds(tier):
   t = {"exhaustive_sets_complete": 12, "cycles_judged": 30000, "random_cycles": 10000, "fairness_windows": 2000,
-       "resets_checked": 50, "hold_cycles_checked": 1000, "embedded_arbiters": 8, "twin_arbiter_comparisons": 500}
+       "resets_checked": 50, "hold_cycles_checked": 1000, "embedded_arbiters": 8, "twin_arbiter_comparisons": 500, "gated_designs": 8, "gated_arbiter_comparisons": 5000}
   if tier == "thorough":
     t.update({"exhaustive_sets_complete": 16, "cycles_judged": 400000, "random_cycles": 300000})
   return t
@@ -234,5 +237,51 @@ def run_rand(sh):
   sh.sample({"stream": "random", "cls": clsname, "nreqs": n, "first_cycles(reqs,en,grants)": hist})
 
 
+def run_gated(sh):
+  """N arbiters in one design, each behind its own branchy gate block ( if en: reqs @= r else: reqs @= 0 ): many branchy blocks are
+  ready at once (the shape Mamba2020 packs into meta blocks); every arbiter is compared with the reference every cycle"""
+  from pymtl3 import DefaultPassGroup
+  from pymtl3.passes.mamba.PassGroups import Mamba2020
+  from vlib import specgen as G
+  N, n, clsname = sh.params["gated"], sh.params["nreqs"], sh.params["cls"]
+  has_en = clsname.endswith("En")
+  rng = sh.rng("gated", clsname, N, n)
+  L = ["from pymtl3 import *", f"from pymtl3.stdlib.basic_rtl.arbiters import {clsname}", "class Gated(Component):", "  def construct(s):",
+       f"    s.r = [InPort({n}) for _ in range({N})]; s.gate = [InPort(1) for _ in range({N})]; s.en = InPort(1)",
+       f"    s.g = [OutPort({n}) for _ in range({N})]", f"    s.arbs = [{clsname}({n}) for _ in range({N})]"]
+  for i in range(N):
+    L += ["    @update", f"    def gate_{i}():", f"      if s.gate[{i}]: s.arbs[{i}].reqs @= s.r[{i}]", f"      else: s.arbs[{i}].reqs @= 0"]
+    if has_en: L += [f"      s.arbs[{i}].en @= s.en"]
+    L += [f"    s.g[{i}] //= s.arbs[{i}].grants"]
+  src = "\n".join(L) + "\n"
+  mod = G.load_source(src, "c19g")
+  try:
+    for pg in ("mamba", "default"):
+      top = mod.Gated(); top.elaborate()
+      top.apply(Mamba2020(print_line_trace=False) if pg == "mamba" else DefaultPassGroup()); top.sim_reset()
+      ptr = [0] * N
+      for cyc in range(sh.params["cycles"]):
+        reqs = [rng.getrandbits(n) if rng.random() < 0.8 else 0 for _ in range(N)]
+        gate = [int(rng.random() < 0.8) for _ in range(N)]
+        en = rng.getrandbits(1) if has_en else 1
+        for i in range(N):
+          top.r[i] @= reqs[i]; top.gate[i] @= gate[i]
+        top.en @= en
+        top.sim_eval_combinational()
+        for i in range(N):
+          eff = reqs[i] if gate[i] else 0
+          eg, nptr, adv = ref_step(n, ptr[i], eff, en, has_en)
+          sh.count("cycles_judged"); sh.count("gated_arbiter_comparisons"); sh.count("evaluations")
+          if int(top.g[i]) != eg:
+            sh.violation("grant-not-first-at-or-after-pointer", {"cls": clsname + "(gated)", "arbiters": N, "arbiter": i, "nreqs": n, "pass_group": pg, "cycle": cyc,
+                         "reqs": bin(eff), "grants": bin(int(top.g[i])), "expected": bin(eg), "ptr": ptr[i]}); return
+          ptr[i] = nptr
+        top.sim_tick()
+      sh.fp("gated", clsname, N, n, pg)
+    sh.count("gated_designs")
+  finally:
+    G.unload(mod)
+
+
 def run_shard(sh):
-  {"exh": run_exh, "rand": run_rand}[sh.params["kind"]](sh)
+  {"exh": run_exh, "rand": run_rand, "gated": run_gated}[sh.params["kind"]](sh)
